@@ -18,11 +18,16 @@ A0(s, l, kind) == [s |-> s, l |-> l, pos |-> FALSE, kind |-> kind, vm |-> IF kin
                    isize |-> 0, setval |-> 0, dst |-> 0, chkorig |-> TRUE, pair |-> [on |-> FALSE, val |-> 0, init |-> 0]]
 \* value argument storing v in the variable owned by argument d
 AV(s, l, v, d) == [A0(s, l, "valint") EXCEPT !.vm = "none", !.setval = v, !.dst = d]
+\* sub-group argument entering the handler with configuration sc (ctor = 1: built with the sub-group constructor
+\* Handler( main_ah, flags)); command-mode argument (std::string destination)
+SUBA(s, l, sc, ctor) == [sub |-> sc, subctor |-> ctor] @@ [A0(s, l, "flag") EXCEPT !.kind = "sub"]
+CMD(s, l) == [A0(s, l, "str") EXCEPT !.vm = "cmd"]
 Ck(k, a, b) == [k |-> k, a |-> a, b |-> b, vals |-> <<>>]
 C0(args, hcons, abbr) == [abbr |-> abbr, endvalues |-> FALSE, args |-> args, hcons |-> hcons]
 H(k, as) == [k |-> k, args |-> as, cspell |-> 0, grp |-> 0]
 \* key texts:  a=97 b=98 n=110 v=118 ; "al" "alt" "num" "val"
 K_a == <<97>>  K_b == <<98>>
+K_fil == <<102, 105, 108>>  K_out == <<111, 117, 116>>  K_in == <<105, 110>>  K_exec == <<101, 120, 101, 99>>
 K_al == <<97, 108>>  K_alt == <<97, 108, 116>>  K_num == <<110, 117, 109>>  K_val == <<118, 97, 108>>
 Cfgs == <<
    \* 1: flags + required int, prefix-related long keys
@@ -75,7 +80,20 @@ Cfgs == <<
    \* 21: pair arguments: int, vector<int> (multi-value) and flag as first variable
    C0(<<[A0(110, K_num, "int") EXCEPT !.pair = [on |-> TRUE, val |-> 9, init |-> 1]],
         [A0(118, K_val, "vecint") EXCEPT !.multi = TRUE, !.pair = [on |-> TRUE, val |-> -2, init |-> 0]],
-        [A0(97, K_al, "flag") EXCEPT !.pair = [on |-> TRUE, val |-> 5, init |-> 5]]>>, <<>>, TRUE)
+        [A0(97, K_al, "flag") EXCEPT !.pair = [on |-> TRUE, val |-> 5, init |-> 5]]>>, <<>>, TRUE),
+   \* 22: sub-group o/out {string f/fil, flag c, int n} next to a flag and an int n/num of the main handler (the key n exists
+   \*     in both: inside the sub-group it is the sub-group's)
+   C0(<<A0(97, K_al, "flag"), A0(110, K_num, "int"),
+        SUBA(111, K_out, C0(<<A0(102, K_fil, "str"), A0(99, <<>>, "flag"), A0(110, <<>>, "int")>>, <<>>, TRUE), 0)>>, <<>>, TRUE),
+   \* 23: two sub-groups with the same keys inside (i/in: string f/fil as pair argument, flag c; o/out: multi-value vector v,
+   \*     flag c) and a positional string of the main handler (a free value behind a sub-group)
+   C0(<<SUBA(105, K_in, C0(<<[A0(102, K_fil, "str") EXCEPT !.pair = [on |-> TRUE, val |-> 2, init |-> 0]], A0(99, <<>>, "flag")>>, <<>>, TRUE), 1),
+        SUBA(111, K_out, C0(<<[A0(118, <<>>, "vecint") EXCEPT !.multi = TRUE], A0(99, <<>>, "flag")>>, <<>>, TRUE), 0),
+        [A0(0, <<>>, "str") EXCEPT !.pos = TRUE, !.card = [t |-> "none", a |-> 0, b |-> 0]]>>, <<>>, TRUE),
+   \* 24: keyed command-mode argument x/exec (at most 7 characters) behind a flag and an int
+   C0(<<A0(97, K_al, "flag"), A0(110, K_num, "int"), [CMD(120, K_exec) EXCEPT !.checks = <<Ck("maxlen", 7, 0)>>]>>, <<>>, TRUE),
+   \* 25: positional command-mode argument, a flag and a mandatory int
+   C0(<<A0(97, K_al, "flag"), [A0(110, K_num, "int") EXCEPT !.mand = TRUE], [CMD(0, <<>>) EXCEPT !.pos = TRUE]>>, <<>>, TRUE)
 >>
 Sel == IF CfgSel = {} THEN 1..Len(Cfgs) ELSE CfgSel
 Cfg == Cfgs[ci]
@@ -85,8 +103,12 @@ StrPool == {<<120>>, <<97, 98>>, <<45, 121>>, <<88, 121, 122>>}        \* "x" "a
 \* positions are unsigned: negative numbers are outside the documented domain (ArgEval leaves them open) and not generated
 BitPool == {<<48>>, <<49>>, <<49, 50>>, <<120>>, <<55>>}     \* "0" "1" "12" "x" "7"
 MapPool == {<<97, 44, 49>>, <<98, 44, 50>>, <<97, 44, 55>>, <<97, 44, 120>>, <<97>>, <<44, 49>>, <<99, 44>>}   \* "a,1" "b,2" "a,7" "a,x" "a" ",1" "c,"
+\* command-mode values: "ls"  "ls -l"  "-a -n 7"  "ls --al x" (keyed: also nothing at all);  positional: "ls"  "ls -a"  "x --num 7"
+CmdPool == {<<108, 115>>, <<108, 115, 32, 45, 108>>, <<45, 97, 32, 45, 110, 32, 55>>, <<108, 115, 32, 45, 45, 97, 108, 32, 120>>}
+CmdPosPool == {<<108, 115>>, <<108, 115, 32, 45, 97>>, <<120, 32, 45, 45, 110, 117, 109, 32, 55>>}
 ValChoices(arg) ==
    IF arg.kind \in {"flag", "valint"} THEN {<<>>}
+   ELSE IF IsCmd(arg) THEN (IF arg.pos THEN {<<v>> : v \in CmdPosPool} ELSE {<<>>} \cup {<<v>> : v \in CmdPool})
    ELSE IF arg.kind \in GrowBitKinds THEN {<<v>> : v \in BitPool} \cup {<<v, w>> : v, w \in {<<49>>, <<55>>}}
    ELSE IF arg.kind = "mapsi" THEN {<<v>> : v \in MapPool} \cup {<<v, w>> : v \in {<<97, 44, 49>>, <<98, 44, 50>>}, w \in {<<97, 44, 55>>, <<98, 44, 50>>}}
    ELSE IF arg.kind = "level" THEN {<<>>, <<<<50>>>>, <<<<55>>>>, <<<<120>>>>}
@@ -95,7 +117,18 @@ ValChoices(arg) ==
    ELSE IF IsContainer(arg.kind) THEN {<<v>> : v \in IntPool \ {<<49, 50>>}} \cup {<<v, w>> : v, w \in {<<48>>, <<55>>, <<45, 51>>}}
    ELSE IF ElemIsInt(arg.kind) THEN {<<v>> : v \in IntPool}
    ELSE {<<v>> : v \in StrPool}
-UseSet(cfg) == UNION {{[a |-> a, vals |-> vs] : vs \in ValChoices(cfg.args[a])} : a \in 1..NArgs(cfg)}
+\* inside a sub-group: smaller pools; sub-group lines: nothing, every single use, and every pair of uses with first values
+SubValChoices(arg) ==
+   IF arg.kind = "int" THEN {<<<<55>>>>, <<<<120>>>>}                     \* "7" "x"
+   ELSE IF arg.kind = "str" THEN {<<<<120>>>>, <<<<45, 121>>>>}           \* "x" "-y"
+   ELSE IF arg.kind = "vecint" THEN {<<<<55>>>>, <<<<120>>>>, <<<<48>>, <<55>>>>}     \* "7" "x" "0,7"
+   ELSE ValChoices(arg)
+FirstVal(arg) == IF arg.kind \in {"int", "vecint"} THEN <<<<55>>>> ELSE IF arg.kind = "str" THEN <<<<120>>>> ELSE <<>>
+SubUses(sc) == UNION {{[a |-> a, vals |-> vs] : vs \in SubValChoices(sc.args[a])} : a \in 1..NArgs(sc)}
+SubUses1(sc) == {[a |-> a, vals |-> FirstVal(sc.args[a])] : a \in 1..NArgs(sc)}
+SubLines(sc) == {<<>>} \cup {<<u>> : u \in SubUses(sc)} \cup {<<u, w>> : u, w \in SubUses1(sc)}
+UseSet(cfg) == UNION {IF IsSub(cfg.args[a]) THEN {[a |-> a, vals |-> <<>>, sub |-> L] : L \in SubLines(cfg.args[a].sub)}
+                      ELSE {[a |-> a, vals |-> vs] : vs \in ValChoices(cfg.args[a])} : a \in 1..NArgs(cfg)}
 Lines(cfg) == UNION {[1..n -> UseSet(cfg)] : n \in 0..MaxUses}
 
 ASSUME PrintT("CFGS " \o ToJson(Cfgs))
